@@ -12,6 +12,7 @@ import (
 	"os"
 	"path/filepath"
 	"sort"
+	"strconv"
 	"strings"
 	"time"
 
@@ -108,6 +109,7 @@ func main() {
 
 	msgTypes()
 	errnos()
+	errnoConsumers()
 	arches()
 	syscalls()
 	syscallNumbersPerArch()
@@ -400,6 +402,65 @@ func errnos() {
 			continue
 		}
 		nontriv++
+	}
+}
+
+// errnoConsumers: the errno table through the code that USES it - the parser (a SYSCALL record with exit=-N), the rule
+// printer (a rule built with -F exit=-N listed by ToCommandLine): whatever name they produce for N maps back to N, for
+// every N from 1 to 4200 (a name, or the number itself where there is no name).
+func errnoConsumers() {
+	for n := 1; n <= 4200; n++ {
+		evals++
+		ok := true
+		check := func(where, got string) {
+			if got == "" {
+				return
+			}
+			neg := strings.HasPrefix(got, "-")
+			g := strings.TrimPrefix(got, "-")
+			if v, err := strconv.Atoi(g); err == nil {
+				if v != n {
+					rep("errno-consumer-number:"+where, "%s turns errno %d into %q", where, n, got)
+					ok = false
+				}
+				return
+			}
+			back, found := auparse.AuditErrnoToNum[g]
+			if !found || back != n {
+				rep("errno-consumer-name-does-not-map-back:"+where, "%s turns errno %d into %q (negative: %v), which the name table maps to (%d, present %v)", where, n, got, neg, back, found)
+				ok = false
+			}
+			if want, has := auparse.AuditErrnoToName[n]; has && g != want {
+				rep("errno-consumer-other-name:"+where, "%s turns errno %d into %q, the table names it %q", where, n, got, want)
+				ok = false
+			}
+		}
+		for _, typ := range []auparse.AuditMessageType{auparse.AUDIT_SYSCALL, auparse.AUDIT_SECCOMP} {
+			raw := fmt.Sprintf("audit(1700000000.123:7): arch=c000003e syscall=2 success=no exit=-%d a0=0 items=0 pid=1 exe=\"/x\"", n)
+			m, err := auparse.Parse(typ, raw)
+			if err != nil {
+				continue
+			}
+			d, err := m.Data()
+			if err != nil {
+				continue
+			}
+			check("auparse Data() exit= of a "+typ.String()+" record", d["exit"])
+		}
+		if w, err := buildLine(fmt.Sprintf("-a always,exit -S all -F exit=-%d", n)); err == nil {
+			if txt, err := rule.ToCommandLine(rule.WireFormat(w), false); err == nil {
+				if i := strings.Index(txt, "exit="); i >= 0 {
+					v := txt[i+5:]
+					if j := strings.IndexByte(v, ' '); j >= 0 {
+						v = v[:j]
+					}
+					check("rule.ToCommandLine -F exit=", v)
+				}
+			}
+		}
+		if ok {
+			nontriv++
+		}
 	}
 }
 
